@@ -28,6 +28,10 @@ def build_loc_forest(version):
         d = Die("DW_TAG_variable", [Attr("DW_AT_name", "DW_FORM_string", b"v%d" % i), Attr("DW_AT_location", form, grp)])
         kids.append(d)
         tests.append((d, "DW_AT_location", [(0, (1 << 64) - 1, grp)]))
+    # an expression without any operation (a variable optimised away): one element of length 0
+    d = Die("DW_TAG_variable", [Attr("DW_AT_name", "DW_FORM_string", b"gone"), Attr("DW_AT_location", form, [])])
+    kids.append(d)
+    tests.append((d, "DW_AT_location", [(0, (1 << 64) - 1, [])]))
     d = Die("DW_TAG_subprogram", [Attr("DW_AT_frame_base", form, [("DW_OP_call_frame_cfa",)])])
     kids.append(d)
     tests.append((d, "DW_AT_frame_base", [(0, (1 << 64) - 1, [("DW_OP_call_frame_cfa",)])]))
@@ -36,7 +40,10 @@ def build_loc_forest(version):
     if version in (3, 4):
         # location lists in .debug_loc: several ranges per attribute
         lists = [[(0x10, 0x20, [("DW_OP_reg5",)]), (0x20, 0x48, [("DW_OP_fbreg", -24), ("DW_OP_deref",)]), (0x100, 0x101, [("DW_OP_bregx", 70, -9), ("DW_OP_stack_value",)])],
-                 [(0, 4, [("DW_OP_lit0",), ("DW_OP_stack_value",)])]]
+                 [(0, 4, [("DW_OP_lit0",), ("DW_OP_stack_value",)])],
+                 # an empty expression in the middle of a list, and one at its end
+                 [(0x10, 0x20, [("DW_OP_reg0",)]), (0x20, 0x30, []), (0x30, 0x40, [("DW_OP_lit1",), ("DW_OP_stack_value",)])],
+                 [(0x50, 0x60, [("DW_OP_reg1",)]), (0x60, 0x70, [])]]
         f.loc = lists
         off = 0
         for k, entries in enumerate(lists):
@@ -175,7 +182,7 @@ def run(ctx):
     common.report_broken_obligations(ctx, oblig, bool(ctx.violations))
     ctx.cov.update({
         "evaluations": evaluations, "distinct_nontrivial": nops + nabb,
-        "rule": "4 generated units (DWARF 2-5) with %d stored operations: every operand class (none, addr, 1/2/4/8-byte unsigned and signed, ULEB, SLEB, register+offset, bregx, bit_piece) at boundary operands, as exprloc / block1 and as .debug_loc lists with 1-3 ranges: range, length, offset, opcode, operands (vs the model's decoding), elem/relem numbering, ?OP_x per opcode; abbreviations of every DIE and the table list on %d generated inputs with tables shared A,B,A,-,A,B, placed in .debug_abbrev in any order, and DW_FORM_indirect; %d law evaluations on the sample binaries" % (nops, 3 if quick else 25, nlaw),
+        "rule": "4 generated units (DWARF 2-5) with %d stored operations: every operand class (none, addr, 1/2/4/8-byte unsigned and signed, ULEB, SLEB, register+offset, bregx, bit_piece) at boundary operands, as exprloc / block1 and as .debug_loc lists with 1-3 ranges, expressions without any operation (alone, in the middle and at the end of a list): range, length, offset, opcode, operands (vs the model's decoding), elem/relem numbering, ?OP_x per opcode; abbreviations of every DIE and the table list on %d generated inputs with tables shared A,B,A,-,A,B, placed in .debug_abbrev in any order, and DW_FORM_indirect; %d law evaluations on the sample binaries" % (nops, 3 if quick else 25, nlaw),
         "samples": [], "traces_validated_against_impl": nops + nabb + nlaw, "violations_found": nviol[0],
     })
     return ctx.finish(oblig)
